@@ -301,6 +301,7 @@ func RunMerge(m *core.Machine, mods []*llfe.Module, d *Driver, prefix string) []
 						}
 					}
 					x := llfe.NewExec(m, order)
+					x.Cfg.CheckCallABI = true
 					d.UseL(x)
 					d.ResetPath()
 					func() {
